@@ -99,6 +99,7 @@ type gen struct {
 	ghostSetsApplied int
 	callOrd          map[*ssa.Call]int // source-order ordinal of each call among the calls of the same callee
 	callOrdFn        *ssa.Function
+	rootFc           *FuncContract // contract of the function under verification (set on generators of inlined callees)
 	retSetsCounted   bool
 	ghostSetArgs     []Val // arguments of the call the ghost assignments being applied are anchored at
 	pointAssertsApplied int
@@ -204,8 +205,20 @@ func (g *gen) havocAll(st State) {
 // ghostPrivate: the ghost variable is assigned (`set`) or listed in a modifies clause by the contract of the
 // function under verification only — no callee, however broad its frame (`modifies *`), can change it, since a
 // ghost variable changes only through a `set` clause or a contract that names it.
+// rootContract: the contract of the function under verification, also while executing an inlined callee.
+func (g *gen) rootContract() *FuncContract {
+	if g.rootFc != nil {
+		return g.rootFc
+	}
+	if g.isInline {
+		return nil
+	}
+	return g.fc
+}
+
 func (g *gen) ghostPrivate(name string) bool {
-	if g.fc == nil {
+	root := g.rootContract()
+	if root == nil {
 		return false
 	}
 	mine := false
@@ -224,7 +237,7 @@ func (g *gen) ghostPrivate(name string) bool {
 		if !mentions {
 			continue
 		}
-		if fc == g.fc {
+		if fc == root {
 			mine = true
 		} else {
 			return false
